@@ -696,6 +696,7 @@ struct RealInput {
   std::string envBody;
   bool haveEnv = false;
   std::string envName;                  // "" = default name (hfEnvVarArgs), else checkEnvVarArgs(name)
+  bool usageAgain = false;              // run time only: stream the handler once more after the evaluation (second usage output)
   bool prepared = false;                // run time only (threads): the caller has set the named environment variable already,
                                         // runReal() must not touch the process environment
   // groups: partition of the arguments over member handlers; empty = plain handler
@@ -709,6 +710,7 @@ struct RealResult {
   std::string exceptionType;
   std::map<int, Val> state;
   std::string out, err;
+  std::string out2;                     // the handler streamed again after the evaluation (usageAgain)
   bool setupThrew = false;              // exception while defining arguments (not during evaluation)
 };
 RealResult runReal(const Config &cfg, const RealInput &in);
